@@ -105,6 +105,7 @@ type SecretFactory struct {
 
 type Secret struct {
 	f      *SecretFactory
+	Random bool // created by CreateRandom (a freshly generated key)
 	ID     int
 	b      []byte
 	closed bool
@@ -119,7 +120,7 @@ func NewSecretFactory(t *Trace, f *Faults) *SecretFactory {
 }
 
 func (f *SecretFactory) add(b []byte, random bool) *Secret {
-	s := &Secret{f: f, ID: len(f.Secrets), b: b}
+	s := &Secret{f: f, ID: len(f.Secrets), b: b, Random: random}
 	f.Secrets = append(f.Secrets, s)
 	if random {
 		if _, ok := f.KeyIndex[string(b)]; !ok {
@@ -203,6 +204,19 @@ func (f *SecretFactory) CreateRandom(size int) (securememory.Secret, error) {
 	f.mu.Unlock()
 	f.T.Add("SRand", s.ID, true)
 	return s, nil
+}
+
+// LiveGenerated returns the ids of live secrets that were created by CreateRandom.
+func (f *SecretFactory) LiveGenerated() []int {
+	f.mu.Lock()
+	defer f.mu.Unlock()
+	var out []int
+	for _, s := range f.Secrets {
+		if !s.closed && s.Random {
+			out = append(out, s.ID)
+		}
+	}
+	return out
 }
 
 // Live returns the ids of secrets not yet closed.
